@@ -138,6 +138,8 @@ struct Exec
 static bool gPollReports = true;
 static int gAcceptFaults = 0;     // the first n accepts fail for lack of descriptors (EMFILE), then succeed
 static bool gGatedStart  = false; // the endpoint's threads wait for the scheduler before their first instruction
+static bool gSlowAcceptor = false; // (with gFine) an acceptor parked before a lock acquisition - in the middle of handing a
+                                   // connection over - comes last in the order: by default everything else runs first
 static bool gFine        = false; // server threads also park before every mutex acquisition (finer than one epoll batch)
 static Exec run_one(const std::vector<uint8_t>& prefix, int shutdownAt, vr::Ctx& ctx, uint64_t& steps, const std::string& label)
 {
@@ -197,8 +199,9 @@ static Exec run_one(const std::vector<uint8_t>& prefix, int shutdownAt, vr::Ctx&
         // deviation, letting it run on is not
         if (gSplitReply && lastActor >= 0 && sim::actor_ready(lastActor))
             en.push_back(lastActor);
+        bool acceptorLast = gSlowAcceptor && sim::actor_ready(0) && ng_is_parked(0) && ng_kind(0) == 1;
         for (int a = 0; a < ng_count(); ++a) // acceptor, workers, and (asyncReply) the handlers' own threads
-            if (sim::actor_ready(a) && !(gSplitReply && a == lastActor))
+            if (sim::actor_ready(a) && !(gSplitReply && a == lastActor) && !(acceptorLast && a == 0))
                 en.push_back(a);
         for (int j = 0; j < C; ++j)
         {
@@ -206,6 +209,8 @@ static Exec run_one(const std::vector<uint8_t>& prefix, int shutdownAt, vr::Ctx&
             if (c.next < (int)gScripts[j].size() && !c.awaiting)
                 en.push_back(100 + j);
         }
+        if (acceptorLast)
+            en.push_back(0);
         // a connection that answers would-block starts accepting data again (last in the order: everything else first)
         std::vector<int> heldFds;
         if (gSplitReply)
@@ -413,6 +418,7 @@ struct Case
     bool gatedStart  = false;
     bool asyncReply  = false;
     bool splitReply  = false;
+    bool slowAcceptor = false;
 };
 static void run_one_noreport(const std::vector<uint8_t>& prefix, vr::Ctx& ctx, uint64_t& steps)
 {
@@ -521,12 +527,13 @@ static void run_case(uint64_t idx, vr::Ctx& ctx)
     R            = c.r;
     D            = c.d;
     gFine        = c.fine;
+    gSlowAcceptor = c.slowAcceptor;
     gAcceptFaults = c.acceptFaults;
     gGatedStart   = c.gatedStart;
     gAsyncReply   = c.asyncReply;
     gSplitReply   = c.splitReply;
     build_scripts();
-    std::string label = std::string(c.splitReply ? "[answer in two raw writes: loop thread, then a thread of the handler; connection blocks after one write] " : "") + std::string(c.asyncReply ? "[handlers answer from threads of their own] " : "") + std::string(c.gatedStart ? "[start-up: threads begin when scheduled] " : "") + std::string(c.fine ? "[threads also yield before every lock] " : "") + (c.acceptFaults ? "[first " + std::to_string(c.acceptFaults) + " accepts fail with EMFILE] " : std::string()) + "w=" + std::to_string(W) + " c=" + std::to_string(C) + " r=" + std::to_string(R) + " D<=" + std::to_string(D) + (c.shutdowns ? " +shutdown-at-every-prefix" : "");
+    std::string label = std::string(c.splitReply ? "[answer in two raw writes: loop thread, then a thread of the handler; connection blocks after one write] " : "") + std::string(c.asyncReply ? "[handlers answer from threads of their own] " : "") + std::string(c.gatedStart ? "[start-up: threads begin when scheduled] " : "") + std::string(c.fine ? "[threads also yield before every lock] " : "") + std::string(c.slowAcceptor ? "[an acceptor in the middle of a hand-over runs last] " : "") + (c.acceptFaults ? "[first " + std::to_string(c.acceptFaults) + " accepts fail with EMFILE] " : std::string()) + "w=" + std::to_string(W) + " c=" + std::to_string(C) + " r=" + std::to_string(R) + " D<=" + std::to_string(D) + (c.shutdowns ? " +shutdown-at-every-prefix" : "");
     ctx.note(label);
     uint64_t steps = 0, execs = 0, shutdownExecs = 0;
     std::vector<std::vector<uint8_t>> stack;
@@ -613,6 +620,10 @@ int main(int argc, char** argv)
     // ran last runs on for free
     gCases.push_back({ 1, 1, 1, 1, false, true, 0, false, false, true });
     gCases.push_back({ 1, 2, 1, 1, false, true, 0, false, false, true });
+    // the acceptor is slow in the middle of handing a connection over (parked before one of its lock acquisitions) while the
+    // worker already serves that connection; one deviation lets it finish at any earlier point
+    gCases.push_back({ 1, 1, 1, 1, false, true, 0, false, false, false, true });
+    gCases.push_back({ 1, 2, 1, 1, false, true, 0, false, false, false, true });
     gCases.push_back({ 2, 2, 2, 0, true });
     gCases.push_back({ 3, 3, 1, 0, true });
     if (thorough)
